@@ -1,0 +1,44 @@
+//go:build verif
+
+package tubes
+
+import "sync/atomic"
+
+// verifYieldFn is the schedule-perturbation callback installed by the verification harness.
+var verifYieldFn atomic.Pointer[func(site string)]
+
+// verifStateFn receives every logged reliable-tube state (site = which code path logged it).
+var verifStateFn atomic.Pointer[func(r *Reliable, site string, state int32)]
+
+// SetVerifYield installs (or, with nil, removes) the function called at every verifYield site.
+func SetVerifYield(f func(site string)) {
+	if f == nil {
+		verifYieldFn.Store(nil)
+		return
+	}
+	verifYieldFn.Store(&f)
+}
+
+// SetVerifStateLog installs (or, with nil, removes) the transition logger.
+func SetVerifStateLog(f func(r *Reliable, site string, state int32)) {
+	if f == nil {
+		verifStateFn.Store(nil)
+		return
+	}
+	verifStateFn.Store(&f)
+}
+
+// verifYield marks a point where the verification harness may perturb the schedule.
+func verifYield(site string) {
+	if f := verifYieldFn.Load(); f != nil {
+		(*f)(site)
+	}
+}
+
+// verifTubeState reports the tube's current state; callers hold r.l.
+// +checklocks:r.l
+func verifTubeState(r *Reliable, site string) {
+	if f := verifStateFn.Load(); f != nil {
+		(*f)(r, site, int32(r.tubeState))
+	}
+}
